@@ -7,7 +7,7 @@ import math
 import numpy as np
 from hypothesis import strategies as st
 
-from ..core import SubCheck, Violation, cut, quiet, require
+from ..core import HarnessError, SubCheck, Violation, cut, quiet, require
 from . import c16
 from .c07 import CTAU, M_TAU, alt_ref
 
@@ -134,7 +134,32 @@ def run(case, scheduler="synchronous", **over):
     return c16.run_compute(dict(c, scheduler="synchronous"))
 
 
+def digest(tab):
+    import hashlib
+
+    out = {c: hashlib.sha1(c16._col_bytes(tab[c])).hexdigest() for c in tab.colnames}
+    for k in tab.meta:
+        if k != "simTime" and not str(k).startswith("HIERARCH"):
+            out["meta:" + k] = repr(meta_val(tab, k))
+    return out
+
+
+def _child_run(case, q):
+    try:
+        from nssverif import core
+
+        core.prepare_environment()
+        _, tab = run(case)
+        q.put(digest(tab))
+    except BaseException as e:  # noqa: BLE001
+        q.put(f"{type(e).__name__}: {e}")
+
+
 def body_schedulers(case):
+    if case["cloud"]["id"] == "pressure_map":
+        # an earlier run of ANOTHER month in this process (state surviving from one run to the next)
+        with cut("compute() [earlier run, other month]"):
+            run(dict(case, cloud={"id": "pressure_map", "month": 1 + case["cloud"]["month"] % 12}, n=min(case["n"], 40), optical=True))
     with cut("compute() [synchronous]"):
         conf, ref = run(case)
     labels = {case["mode"]}
@@ -147,6 +172,24 @@ def body_schedulers(case):
     with cut("compute() [repeat]"):
         _, t = run(case)
     compare_tables(ref, t, "same seed, repeated run")
+    if "processes" in case["scheds"]:
+        # ... and the same seeded run in a FRESH interpreter (nothing left over from earlier runs of this process)
+        import multiprocessing as mp
+
+        ctx = mp.get_context("spawn")
+        q = ctx.Queue()
+        pr = ctx.Process(target=_child_run, args=(case, q))
+        pr.start()
+        try:
+            got = q.get(timeout=900)
+        finally:
+            pr.join(60)
+        if isinstance(got, str):
+            raise HarnessError("fresh-interpreter run failed: " + got)
+        mine = digest(ref)
+        diff = [k for k in mine if got.get(k) != mine[k]]
+        require(not diff, f"the seeded run differs from the same run in a fresh interpreter in {diff[:6]} (this process had run other configurations before)")
+        labels.add("fresh_interpreter")
     n = in_kernel_range(ref)
     if case["optical"] and n >= 1:
         labels.add("kernel_events")
@@ -296,7 +339,7 @@ SUBCHECKS = [
     ),
     SubCheck(
         "processes",
-        run_case([150, 400], st.just(["processes"])).map(lambda c: dict(c, optical=True, mode="Diffuse", cloud={"id": "pressure_map", "month": 1 + c["seed"] % 12} if c["seed"] % 2 else c["cloud"])),
+        run_case([150, 400], st.just(["processes"])).map(lambda c: dict(c, optical=True, mode="Diffuse", cloud={"id": "pressure_map", "month": 1 + c["seed"] % 12})),
         body_schedulers,
         lambda labels: "kernel_events" in labels,
         {"quick": 2, "thorough": 24},
